@@ -175,6 +175,34 @@ var scenarios = []scenario{
 		}
 		return ""
 	}},
+	// a post addressed to a category that does not exist: whatever the reply, an account that may not create categories
+	// must not have made one appear
+	{name: "post-article-to-missing-category", typ: 410, build: func(e env) []rc.Field {
+		return []rc.Field{npath("GhostCat"), rc.F(326, rc.U32(0)), rc.FS(328, "t"), rc.FS(327, "text/plain"), rc.FS(333, "b")}
+	}, semantic: func(bits []byte, o outcome, srv *fixture.Server) string {
+		if rc.BitSet(bits, 34) {
+			return ""
+		}
+		for _, d := range o.diff {
+			if strings.Contains(d, "ThreadedNews.yaml") {
+				return "an account without create-category caused " + d
+			}
+		}
+		return ""
+	}},
+	{name: "post-article-to-missing-category-in-bundle", typ: 410, build: func(e env) []rc.Field {
+		return []rc.Field{npath("bun", "GhostCat"), rc.F(326, rc.U32(0)), rc.FS(328, "t"), rc.FS(327, "text/plain"), rc.FS(333, "b")}
+	}, semantic: func(bits []byte, o outcome, srv *fixture.Server) string {
+		if rc.BitSet(bits, 34) {
+			return ""
+		}
+		for _, d := range o.diff {
+			if strings.Contains(d, "ThreadedNews.yaml") {
+				return "an account without create-category caused " + d
+			}
+		}
+		return ""
+	}},
 	// controls: no governing privilege, must be served whatever the bitmap
 	{name: "ctl-keepalive", typ: 500, build: func(e env) []rc.Field { return nil }},
 	{name: "ctl-userlist", typ: 300, build: func(e env) []rc.Field { return nil }},
@@ -189,7 +217,7 @@ func init() {
 	n := len(scenarios) * chunks
 	core.Register(&core.Simple{
 		Id: "C05", Lvl: "exploration", Quick: n, Thorough: n * 12, PerBatch: 72, Width: 24, Timeout: 1200,
-		RuleText: "one case = one request scenario (request type x target kind, 66 scenarios incl. controls, operations on existing aliases, and two hostile path encodings and a creation spelled like an existing account judged by absolute oracles) executed on identical fresh servers under a chunk of access bitmaps: all-ones (baseline), all-ones minus each governing bit, only the governing bits, the 64 single-bit bitmaps (exhaustive across the 8 chunks of a scenario) and seeded random bitmaps; the privileges are either held from the start, or set by an administrator between the actor's login and its agreed, or set on the live session (the privileges current when the request arrives are what counts); the oracle compares reply class, emissions to other clients and file/account/news/board snapshots with the baseline (granted) or demands an error reply and no change (denied). distinct = (scenario, bitmap class, granted/denied); non-trivial = every execution",
+		RuleText: "one case = one request scenario (request type x target kind, 68 scenarios incl. controls, operations on existing aliases, and two hostile path encodings, a creation spelled like an existing account and posts to missing categories judged by absolute oracles) executed on identical fresh servers under a chunk of access bitmaps: all-ones (baseline), all-ones minus each governing bit, only the governing bits, the 64 single-bit bitmaps (exhaustive across the 8 chunks of a scenario) and seeded random bitmaps; the privileges are either held from the start, or set by an administrator between the actor's login and its agreed, or set on the live session (the privileges current when the request arrives are what counts); the oracle compares reply class, emissions to other clients and file/account/news/board snapshots with the baseline (granted) or demands an error reply and no change (denied). distinct = (scenario, bitmap class, granted/denied); non-trivial = every execution",
 		Case:     runCase,
 	})
 }
